@@ -634,10 +634,8 @@ theorem jsResult_eq (st : JState) (hh : Bool) (m : Option Bool) :
 
 theorem canonWarnings_agree (s : RState) (out : List (List Str)) :
     canonWarnings (jsWarnings (absJ s [] out none)) = canonWarnings (readerWarnings s) := by
+  obtain ⟨_, _, _, _, _, b, d, f, _, _, _⟩ := s
   simp only [jsWarnings, readerWarnings, absJ]
-  generalize s.bom = b
-  generalize s.firstDefective = d
-  generalize s.fieldsInfo = f
   cases b <;> cases d <;> rcases f with _ | ⟨⟨a1, a2⟩, _ | ⟨⟨a3, a4⟩, _⟩⟩ <;> simp [canonWarnings]
 
 theorem canon_ok (s2 : RState) (out : List (List Str)) (hdr : Bool) (h : Option (List Str))
@@ -735,7 +733,8 @@ theorem tail_agree (c : RCfg) (hok : CommentOK c) (s : RState) (hinv : RInv c s)
       have hp := hfr rfl
       rw [hp, linesSpec_nil, jsRun_nil_of_agg _ _ rfl] at hJ
       rw [hJ]
-      apply canon_ok (s2 := { s with emitFirst := false })
+      change _ = canonResult (jsResultH (absJ { s with emitFirst := false } [] [] none) false)
+      apply canon_ok
       · simp [getHeader, h1]
       · simp
     | some r =>
@@ -745,12 +744,16 @@ theorem tail_agree (c : RCfg) (hok : CommentOK c) (s : RState) (hinv : RInv c s)
       rcases hall : allRecords c (remaining s + 1) { s with emitFirst := false } [r] with
         e | ⟨recs, s2⟩
       · rw [hall] at hj
+        rw [h3] at hall
+        rw [hall]
         simp only at hj ⊢
         have : J.err = some e := by
           rw [← clr_err, hJ, clr_err]
           exact hj _
         rw [canon_err J _ e this]
       · rw [hall] at hj
+        rw [h3] at hall
+        rw [hall]
         simp only at hj ⊢
         obtain ⟨new, hnew, h4⟩ := hj
         subst hnew
